@@ -158,3 +158,9 @@ package ice
 //@ enumerate C12 stores ice.udpMuxedConn.bufTail in (*udpMuxedConn).readPacket, (*udpMuxedConn).writePacket, (*udpMuxedConn).Close
 //@ enumerate C12 stores ice.bufferHolder.next in (*udpMuxedConn).writePacket, (*bufferHolder).reset
 //@ enumerate C12 stores ice.udpMuxedConn.closed in (*udpMuxedConn).Close
+
+//@ func (*udpMuxedConn).WriteToAddrPort
+//@   props C12
+//@   site call registerAddress#1 assert registers-the-canonical-destination: arg0 == c
+//@   site call canonicalAddrPort#1 assert canonicalises-the-destination: arg0 == rAddr
+//@   site call writeToUDPAddrPort#1 assert writes-the-callers-bytes-to-the-callers-address: arg1 == buf && arg2 == rAddr
